@@ -1,5 +1,5 @@
 From Coq Require Import ZArith List Bool Arith.
-From PV Require Import Base.U64 E3.E3_Run C05.C05_Asym C05.C05_AsymProofs C05.C05_AsymTSO C05.C05_Model C05.C05_Proofs C05.C05_Proofs2 C05.C05_Proofs3 C05.C05_Proofs4 C05.C05_Pool C05.C05_PoolProofs.
+From PV Require Import Base.U64 E3.E3_Run C05.C05_Asym C05.C05_AsymProofs C05.C05_AsymTSO C05.C05_Model C05.C05_Proofs C05.C05_Proofs2 C05.C05_Proofs3 C05.C05_Proofs4 C05.C05_Proofs5 C05.C05_Pool C05.C05_PoolProofs.
 Import ListNotations.
 
 (* ---- asymmetric_spinLock (the run-queue lock) ------------------------------------------------- *)
@@ -104,6 +104,15 @@ Theorem nthreads_restored : forall progs nv n flags t0 s, (nv <= n)%nat -> reach
        v_nthreads (s_vc s v) = v_nthreads (s_vc (init_state nv n flags t0) v)).
 Proof. exact nthreads_proof. Qed.
 Print Assumptions nthreads_restored.
+
+(* the positive side of F23: if work stealing never takes a thread from a vCPU that still has the pending part of a
+   context switch away from that thread (the class guard of the finding; `gstep` skips exactly those steals), no two
+   vCPUs ever execute on the same stack — every program, every number of vCPUs, every schedule *)
+Theorem stack_exclusive_guarded : forall progs nv n flags t0 ls, (nv <= n)%nat ->
+  let s := grun progs (init_state nv n flags t0) ls in
+  forall v v' t, phys s v = Some t -> phys s v' = Some t -> v = v'.
+Proof. exact stack_exclusive_guarded_proof. Qed.
+Print Assumptions stack_exclusive_guarded.
 
 (* ---- ThreadPoolBase hand-shake (thread-pool.cpp 33-139), one control block, any number of rounds ---- *)
 (* the repaired code (repo_patches/C05-fix-pool-join-interrupt.diff): for EVERY schedule, interrupts of the waiting threads
